@@ -608,9 +608,65 @@ def run(res: C.Result, deep: bool):
         _feed(res, cases[i:i + 20000], i)
     _feed_ctx(res, deep, cctx)
     _feed_progs(res, deep, cprogs)
+    _threads(res)
+
+
+def thread_probe() -> List[Dict[str, Any]]:
+    """`with disable_message_validation():` switches validation off for the code inside the block — not for another thread
+    that assigns at the same time (a MessageManager started in a background thread runs its whole loop inside such a
+    block).  Returns the out-of-domain assignments that were accepted outside any block."""
+    import threading
+    C.use_repo()
+    import pyrtma.core_defs as cd
+    from pyrtma.validators import disable_message_validation
+    inside, release = threading.Event(), threading.Event()
+    bad: List[Dict[str, Any]] = []
+
+    def holder():
+        with disable_message_validation():
+            inside.set()
+            release.wait(10)
+
+    def attempts(who):
+        m = cd.MDF_CONNECT_V2()
+        for field, value in (("logger_status", 70000), ("mod_id", -40000), ("pid", 2 ** 40), ("name", "x" * 99),
+                             ("logger_status", "one"), ("pid", 1.5)):
+            try:
+                setattr(m, field, value)
+                bad.append({"thread": who, "field": f"MDF_CONNECT_V2.{field}", "value": repr(value)[:20],
+                            "stored": repr(getattr(m, field))[:20]})
+            except Exception:  # noqa: BLE001  refused: what the property demands
+                pass
+    t = threading.Thread(target=holder, daemon=True)
+    t.start()
+    if not inside.wait(10):
+        raise C.MachineryError("the helper thread never entered its block")
+    try:
+        attempts("main thread, another thread holds a disable block")
+        w = threading.Thread(target=attempts, args=("second thread, another thread holds a disable block",), daemon=True)
+        w.start(); w.join(10)
+    finally:
+        release.set()
+        t.join(10)
+    attempts("main thread, after the other thread left its block")
+    return bad
+
+
+def _threads(res: C.Result):
+    bad = thread_probe()
+    res.extra["thread_probe_assignments"] = 18
+    res.evaluations += 18
+    for b in bad[:3]:
+        res.failures.append(C.Failure(
+            clause="validation_in_force_outside_disable_blocks: accepted while only another thread was inside a block",
+            case={"thread_probe": b}, detail=f"{b['field']} = {b['value']} was accepted ({b['thread']}); it reads back {b['stored']}"))
 
 
 def replay(body: Dict[str, Any]) -> int:
+    if "thread_probe" in (body.get("case") or {}):
+        bad = thread_probe()
+        print(bad or "no assignment accepted")
+        return 1 if bad else 0
     case = body.get("case") or (body.get("first_corr_diff") or {}).get("case")
     if not case:
         print("nothing replayable in this file")
